@@ -62,6 +62,14 @@ def frag_set_case(rng):
                 if '[H' in text:
                     feats.add('explicit_hydrogen_atoms')
         frs['T%d' % i] = text
+    if not coarse and rng.random() < 0.12:
+        # bonds WRITTEN as aromatic (':') between atoms that are not written in lower case: delocalised groups
+        # (carboxylate, guanidinium, nitro, sulfone) and rings spelled with upper-case atoms
+        d = lambda: M.fmt_desc(rng.choice(C13.KINDS), rng.choice(C13.LABELS), rng.choice((1, 1, 2)))
+        frs['T9'] = rng.choice(['{a}CC(:O):O', '{a}CNC(:N):N', '{a}C1:C:C:C({b}):C:C:1', 'N{a}(:O):O', 'C{a}S(:O)(:O)C{b}', 'C{a}:1:C:C:C:C:C1',
+                                'C{a}c1ccccc1C(:O):O']).format(a=d(), b=d())
+        feats.add('explicit_aromatic_bond_between_upper_case_atoms')
+        nd += 1
     return dict(kind='fragset', coarse=coarse, string='{' + ','.join('#%s=%s' % kv for kv in frs.items()) + '}',
                 features=sorted(feats), ndesc=nd)
 
